@@ -99,6 +99,7 @@ func buildTagFields(rt reflect.Type, out, pretty, embedded, omitEmpty bool) (fa 
 			if f.Type.Kind() == reflect.Ptr {
 				for _, fi := range buildTagFields(f.Type.Elem(), out, pretty, embedded, omitEmpty) {
 					fi.index = append([]int{i}, fi.index...)
+					fi.iAppend = skipNilEmbedded(fi.iAppend, len(fi.index)-1)
 					fi.Append = fi.iAppend
 					fa = append(fa, fi)
 				}
@@ -153,6 +154,7 @@ func buildExactFields(rt reflect.Type, out, pretty, embedded, omitEmpty bool) (f
 			if f.Type.Kind() == reflect.Ptr {
 				for _, fi := range buildExactFields(f.Type.Elem(), out, pretty, embedded, omitEmpty) {
 					fi.index = append([]int{i}, fi.index...)
+					fi.iAppend = skipNilEmbedded(fi.iAppend, len(fi.index)-1)
 					fi.Append = fi.iAppend
 					fa = append(fa, fi)
 				}
@@ -181,6 +183,7 @@ func buildLowFields(rt reflect.Type, out, pretty, embedded, omitEmpty bool) (fa 
 			if f.Type.Kind() == reflect.Ptr {
 				for _, fi := range buildLowFields(f.Type.Elem(), out, pretty, embedded, omitEmpty) {
 					fi.index = append([]int{i}, fi.index...)
+					fi.iAppend = skipNilEmbedded(fi.iAppend, len(fi.index)-1)
 					fi.Append = fi.iAppend
 					fa = append(fa, fi)
 				}
@@ -203,4 +206,30 @@ func buildLowFields(rt reflect.Type, out, pretty, embedded, omitEmpty bool) (fa 
 		}
 	}
 	return
+}
+
+// skipNilEmbedded wraps an append function of a field that is reached through
+// an embedded pointer. If a pointer on the way to the field is nil the field
+// is skipped instead of a panic being raised by reflect. The below argument
+// is the length of the index path below the embedded pointer.
+func skipNilEmbedded(inner appendFunc, below int) appendFunc {
+	return func(fi *finfo, buf []byte, rv reflect.Value, addr uintptr, safe bool) ([]byte, any, appendStatus) {
+		if nilOnPath(rv, fi.index[:len(fi.index)-below]) {
+			return buf, nil, aSkip
+		}
+		return inner(fi, buf, rv, addr, safe)
+	}
+}
+
+func nilOnPath(rv reflect.Value, index []int) bool {
+	for _, i := range index {
+		if rv.Kind() == reflect.Ptr {
+			if rv.IsNil() {
+				return true
+			}
+			rv = rv.Elem()
+		}
+		rv = rv.Field(i)
+	}
+	return rv.Kind() == reflect.Ptr && rv.IsNil()
 }
